@@ -1,7 +1,7 @@
 """C06 - parameterised rules behave like their expansion."""
 from contracts import call, core, rt_objects
 from pyvc.report import Report
-from .common import run_fragments, run_rt
+from .common import run_fragments, run_rt, dependency_layer
 from . import wiring
 
 
@@ -25,4 +25,5 @@ def run(tier, seed):
     wiring.visit_reaches_every_child(rep, tier)
     rep.assumptions.append('expansion semantics on paper: the callee body, being a rule function over python locals, behaves as the body with each '
                            'parameter replaced by the argument value (C05 frame); _run\'s same-outcome clause (C07) needs == keys to have equal outcomes')
+    dependency_layer(rep, tier)
     return rep.finish()
